@@ -645,13 +645,17 @@ type replay struct {
 func families(thorough bool) []bounds {
 	q := bounds{Name: "in-memory", Kinds: quickKinds, MinKinds: 2, MaxKinds: 3, MaxSec: 2, MaxOps: 3, MaxTotal: 3}
 	d := bounds{Name: "in-memory-two-faults", Kinds: quickKinds, MinKinds: 2, MaxKinds: 2, MaxSec: 2, MaxOps: 3, MaxTotal: 3, DoubleFault: true}
+	// a TCP mailbox pair on loopback next to a local / a ref-bound (refusable) local: the sender section sends and
+	// then fails (false await, or the sibling refuses an operation or its pre-commit after the send) on a connection
+	// that stays open, the retry commits, a second section sends again; the receiving end is drained and compared
+	tcp := bounds{Name: "tcp-pair", Kinds: []string{"tcpout", "reflocal", "local"}, MinKinds: 2, MaxKinds: 2, MaxSec: 2, MaxOps: 2, MaxTotal: 3, MustHave: []string{"tcpout"}}
 	if !thorough {
-		return []bounds{q, d}
+		return []bounds{tcp, q, d}
 	}
 	d.MaxKinds = 3
 	q.MaxSec, q.MaxTotal = 3, 4
 	slow := bounds{Name: "disk", Kinds: append(append([]string{}, slowKinds...), "local", "incmap", "inchan", "outchan"), MinKinds: 2, MaxKinds: 2, MaxSec: 2, MaxOps: 2, MaxTotal: 3, MustHave: slowKinds}
-	return []bounds{slow, d, q}
+	return []bounds{tcp, slow, d, q}
 }
 
 func TestCheck(t *testing.T) {
